@@ -14,6 +14,9 @@ ADDED = {
  "C10_1": "`Bounded` watchdog guard around every close call (the hang used to be *inconclusive*)",
  "C10_2": "pending blocking / asynchronous dial operations in `c10_close`",
  "C10_3": "`Bounded` watchdog guard (as C10_1)",
+ "C02_4": "`c10_device` (devices started, cancelled and closed under the aio monitor) added to the C02 plan; it was already caught by C10",
+ "C03_4": "list-walk scheduling points in the simulator (`sim/listpts.c`) + scenario `c03_subctx` (SUB contexts opened/closed while the receive path walks the context list)",
+ "C11_4": "mutation kind `backtrace ends in a partial word` in `c11_sp`/`c11_udp` (before it the catch was 1 run in 2900)",
  "C10_5": "extra peers arriving through a slow ADD_POST callback in `c10_close` (connections parked between negotiation and accept)",
  "C14_4": "scenario `c14_subset` (subsets of the pipe events registered, registrations dropped while a pipe is up)",
  "C14_5": "scenario `c14_churn` (listener closed and replaced while dialers redial)",
